@@ -6,7 +6,7 @@ import WhatIs.Oracle.C17
 /-
   Oracle/C18.lean â€” `jwt <data> [H <doc> P <doc>]` where <doc> = obj n (key kind value)* | null | bad | nob64 is what
   encoding/json makes of each of the first two segments (recorded by the harness with the standard library).
-  model = `Jwt.jwtData` with that record as the JSON oracle;
+  model = `Jwt.jwtData Json.doc`: the whole token from its bytes, JSON reader included;
   holds = RFC 7515/7519 side: accepted iff three base64 segments whose first two are JSON objects; every registered
           name with a string value shown with that value (algorithms by the registered long names or verbatim),
           numeric dates read back to the denoted second, Signature reads back to the raw signature, nothing invented.
@@ -177,13 +177,9 @@ def handle (op : String) (args : List String) (impl : String) : Option (String Ã
   | "jwt" =>
     match parseCase args with
     | some c =>
-      -- JSON oracle: the model asks for the document of the decoded first / second segment
-      let segs := Jwt.splitOn 46 c.data []
-      let dec (i : Nat) : Option Bytes := (segs[i]?).bind fun s => (Base64.decodeAny s).toOption
-      let json : Bytes â†’ JDoc := fun b =>
-        if some b = dec 0 then c.hdr else if some b = dec 1 then c.pl else .bad
-      -- header and payload may decode to the same bytes with different records only if the records are equal
-      let m := match Jwt.jwtData json c.data with
+      -- the model reads the token from its BYTES alone: base64 (C14), the concrete JSON reader (Model/Json.lean), the
+      -- attribute builders; the recorded documents <doc> are the spec-side ground truth of `holds` only
+      let m := match Jwt.jwtData Json.doc c.data with
         | .ok i => "1 ok " ++ i.show
         | _ => "0 err"
       some (m, holds c impl)
